@@ -38,6 +38,7 @@ type node struct {
 	right    string
 	maxLen   int
 	suffix   string
+	pat      string // menu id of a regular expression (replace / extract)
 }
 type matchItem struct {
 	idx int
@@ -50,6 +51,23 @@ type caseItem struct {
 	then  []*node
 }
 
+// the fixed menu of regular expressions and globs whose meaning Transforms.tla writes out (Go regexp / gobwas glob are not
+// re-specified): menu id -> (pattern, replacement)
+var replaceMenu = map[string][2]string{
+	"runsA": {"a+", "X"},            // every maximal run of 'a' becomes X
+	"delB":  {"b", ""},              // every 'b' is deleted
+	"rot2":  {"^(..)(.*)$", "$2$1"}, // the first two characters go to the end (no match across a newline)
+}
+var extractMenu = map[string]string{
+	"kv": "^(?P<f4>[a-c]+)=(?P<f5>[a-c]*)", // f4 := leading run of a-c before '=', f5 := run of a-c after it (may be empty)
+}
+var matchMenu = map[string][2]string{ // op -> (tag, expression)
+	"re_allA":   {"!!regex", "^a+$"},
+	"re_bdotc":  {"!!regex", "b.c"},
+	"gl_astarb": {"!!glob", "a*b"},
+	"gl_alt":    {"!!glob", "{ab,c}?"},
+}
+
 func fname(i int) string { return fieldNames[i-1] }
 func q(s string) string {
 	return "\"" + strings.NewReplacer("\\", "\\\\", "\"", "\\\"").Replace(s) + "\""
@@ -59,6 +77,10 @@ func matchYAML(ms []matchItem, ind string) string {
 	var sb strings.Builder
 	for _, m := range ms {
 		tag := map[string]string{"eq": "!!str-eq", "not": "!!str-not", "start": "!!str-start", "end": "!!str-end", "contain": "!!str-contain", "any": "!!str-any", "lengt": "!!len-gt", "lenlt": "!!len-lt"}[m.op]
+		if mm, ok := matchMenu[m.op]; ok {
+			fmt.Fprintf(&sb, "%s%s: %s %s\n", ind, fname(m.idx), mm[0], q(mm[1]))
+			continue
+		}
 		switch m.op {
 		case "any":
 			fmt.Fprintf(&sb, "%s%s: %s \"\"\n", ind, fname(m.idx), tag)
@@ -152,6 +174,13 @@ func (n *node) yaml(ind string) string {
 		w("suffix: %s", q(n.suffix))
 	case "unescape":
 		w("key: %s", fname(n.key))
+	case "replace":
+		w("key: %s", fname(n.key))
+		w("pattern: %s", q(replaceMenu[n.pat][0]))
+		w("replacement: %s", q(replaceMenu[n.pat][1]))
+	case "extract":
+		w("key: %s", fname(n.key))
+		w("pattern: %s", q(extractMenu[n.pat]))
 	}
 	return sb.String()
 }
@@ -253,6 +282,8 @@ func (n *node) json(drops *[][]int) map[string]any {
 		m["key"], m["maxLen"], m["suffix"] = n.key, n.maxLen, fnutil.Bytes(n.suffix)
 	case "unescape":
 		m["key"] = n.key
+	case "replace", "extract":
+		m["key"], m["pat"] = n.key, n.pat
 	}
 	return m
 }
@@ -467,6 +498,22 @@ func Main(args []string) int {
 		{match: []matchItem{{idx: 1, op: "any"}}, then: []*node{{t: "block", then: []*node{{t: "mapValue", key: 1, mapping: [][2]string{{"ABC", "abc"}}, dflt: ""}, {t: "addFields", dest: 3, parts: [][]any{{"lit", "C:"}, {"var", 1}}}}}}},
 	}}, {t: "addFields", dest: 5, parts: [][]any{{"lit", "after"}}}}, recs1(mvals), nil)
 
+	// (i-f) regular expressions and globs from the fixed menu (replace, extract, !!regex, !!glob) on ASCII values
+	avals := []string{"", "a", "aa", "ab", "b", "abc", "aab", "bac", "b\nc", "bxc", "b=c", "ab=", "ab=ca", "a=b", "cab", "acb", "a\n", "=", "abcabc", "aaXaa", "c", "cx", "abx", "abxy", "bb", "a b", "ba", "aab=abc=a", "d=a", "=a"}
+	recsA := [][]string{}
+	for _, v := range avals {
+		recsA = append(recsA, []string{v, "keep", "", "old4", "old5"})
+	}
+	for _, pat := range []string{"runsA", "delB", "rot2"} {
+		runProgram([]*node{{t: "replace", key: 1, pat: pat}}, recsA, nil)
+		runProgram([]*node{{t: "replace", key: 1, pat: pat}, {t: "replace", key: 1, pat: "runsA"}, {t: "replace", key: 3, pat: pat}}, recsA, nil)
+	}
+	runProgram([]*node{{t: "extract", key: 1, pat: "kv"}}, recsA, nil)
+	runProgram([]*node{{t: "extract", key: 1, pat: "kv"}, {t: "if", match: []matchItem{{idx: 5, op: "any"}}, then: []*node{{t: "addFields", dest: 3, parts: [][]any{{"var", 4}, {"lit", "/"}, {"var", 5}}}}}}, recsA, nil)
+	for _, op := range []string{"re_allA", "re_bdotc", "gl_astarb", "gl_alt"} {
+		runProgram([]*node{{t: "if", match: []matchItem{{idx: 1, op: op}}, then: []*node{{t: "addFields", dest: 3, parts: [][]any{{"lit", "hit"}}}}},
+			{t: "drop", match: []matchItem{{idx: 1, op: op}, {idx: 2, op: "eq", arg: "keep"}}, rate: 100, label: "m"}}, recsA, nil)
+	}
 	// (ii) generated programs nested to depth 3, boundary-biased records
 	rnd := rand.New(rand.NewSource(o.Seed))
 	words := []string{"", "a", "ab", "abc", "<a>", "x=1 y", "\\n", "long-value-0123456789", "\xc3\xa9t\xc3\xa9", "  pad  ", "a,b"}
